@@ -100,23 +100,35 @@ LookupRef(sp, d) ==
 \* ---------------------------------------------------------------- DnaOps: operations handing out DNAs
 \* State: the spec, the annotated tree the library holds.  Mirror = TRUE models Swap as it is coded
 \* (children exchanged, bound specs travel with them); Mirror = FALSE the intended re-binding.
-CONSTANTS OpsUniverse, Mirror, MaxOps
+CONSTANTS OpsUniverse, Mirror, MaxOps, ShareMemo
 
-VARIABLES held, steps          \* `spec` of Geno is the space; `held` the annotated tree the library holds
-opvars == <<spec, cur, prev, visited, done, held, steps>>
+VARIABLES held, steps, memo    \* `spec` of Geno is the space; `held` the annotated tree the library holds;
+                               \* `memo` the lazily built lookup table of that DNA object (decision by id / name)
+opvars == <<spec, cur, prev, visited, done, held, steps, memo>>
+NoMemo == [has |-> FALSE, tab |-> <<>>]
 
 oInit == /\ spec \in OpsUniverse
          /\ cur = FirstSp(spec) /\ prev = NoDNA /\ visited = {} /\ done = FALSE
          /\ held = ATree(spec, FirstSp(spec))
          /\ steps = 0
+         /\ memo = NoMemo
 
 Rebound(at) == ATree(spec, AbstractOf(spec, Plain(at)))
 
-\* iter_dna / next_dna / from_numbers / from_dict / parse / from_json / random_dna / Uniform mutation /
-\* recombination: a DNA freshly bound by use_spec
-oFresh == \E d \in Valid(spec) : held' = ATree(spec, d)
-\* clone keeps tree and bindings
-oClone == held' = held
+\* iter_dna / next_dna / from_numbers / from_dict / parse / from_json / random_dna / recombination: a new DNA object
+\* freshly bound by use_spec (its lookup table is not built yet)
+oFresh == /\ \E d \in Valid(spec) : held' = ATree(spec, d)
+          /\ memo' = NoMemo
+\* d[key] / d.named_decisions: the table is built on first use and kept
+oLookup == /\ held' = held
+           /\ memo' = IF memo.has THEN memo ELSE [has |-> TRUE, tab |-> DecisionsOf(held)]
+\* clone keeps tree and bindings; ShareMemo = TRUE: the clone also inherits the lookup table
+oClone == /\ held' = held
+          /\ memo' = IF ShareMemo THEN memo ELSE NoMemo
+\* mutators.Uniform: clone, then replace a sub-tree of the clone IN PLACE without notification (the tables of the
+\* clone are not invalidated -- harmless as long as a clone starts without tables)
+oMutate == /\ \E d \in Valid(spec) : held' = ATree(spec, d)
+           /\ memo' = IF ShareMemo THEN memo ELSE NoMemo
 \* mutators.Swap: two children of a node bound to an unsorted multi-choice are exchanged
 RECURSIVE SwapsOf(_)
 SwapsOf(at) ==
@@ -129,11 +141,12 @@ SwapsOf(at) ==
                      : p \in { q \in (1..m) \X (1..m) : q[1] < q[2] } }
               ELSE {}
   IN here \cup UNION { { ANode(at[1], at[2], ReplaceAt(kids, i, s), AAnn(at)) : s \in SwapsOf(kids[i]) } : i \in 1..m }
-oSwap == \E s \in SwapsOf(held) : held' = IF Mirror THEN s ELSE Rebound(s)
+oSwap == /\ \E s \in SwapsOf(held) : held' = IF Mirror THEN s ELSE Rebound(s)
+         /\ memo' = IF ShareMemo THEN memo ELSE NoMemo
 
 oNext == /\ steps < MaxOps
          /\ steps' = steps + 1
-         /\ oFresh \/ oClone \/ oSwap
+         /\ oFresh \/ oLookup \/ oClone \/ oMutate \/ oSwap
          /\ UNCHANGED <<spec, cur, prev, visited, done>>
 OpsSpec == oInit /\ [][oNext]_opvars
 
@@ -142,6 +155,8 @@ OpsAligned == Aligned(spec, held)
 \* an aligned DNA answers lookups with the decisions of its own raw numbers
 OpsLookup == Aligned(spec, held) =>
                DecisionsOf(held) = DecisionsOf(ATree(spec, AbstractOf(spec, Plain(held))))
+\* a lookup table, once built, describes the DNA object that holds it
+MemoFresh == memo.has => memo.tab = DecisionsOf(held)
 
 U_ops == { Sp(<<M23>>), Sp(<<M22f>>), Sp(<<M23s>>), Sp(<<DeepM>>), Sp(<<O2, M23>>),
            Sp(<<Ch(1, <<Sp(<<M23>>), Const>>, TRUE, FALSE)>>),
